@@ -7,6 +7,7 @@ import (
 	"path/filepath"
 	"reflect"
 	"strings"
+	"sync"
 	"time"
 
 	"github.com/casbin/casbin/v2"
@@ -137,7 +138,7 @@ func lockModeOf(sw *SyncWorld, dir string, m syncapi.Method, rng *rand.Rand) str
 		select {
 		case <-done:
 			completed = true
-		case <-time.After(60 * time.Millisecond):
+		case <-time.After(1500 * time.Millisecond): // generous: a call that only needs this lock returns in microseconds
 		}
 		if write {
 			e.GetLock().Unlock()
@@ -178,16 +179,32 @@ func runC12(c *Ctx) {
 	c.W.Op("case sync", "#")
 	worlds := SyncWorlds()
 	modes := map[string]string{}
-	for _, m := range methods {
+	// all probes in parallel, each on its own enforcer (a blocked call costs the whole timeout)
+	var mwg sync.WaitGroup
+	var mmu sync.Mutex
+	for i, m := range methods {
 		if m.Name == "GetLock" {
 			modes[m.Name] = "none"
-			c.W.Op("wrapper "+m.Name, "mode=none")
 			continue
 		}
-		mode := lockModeOf(worlds[0], dir, m, c.Rng)
-		modes[m.Name] = mode
-		c.W.Op("wrapper "+m.Name, "mode="+mode)
-		c.Count("mode="+mode, 1)
+		mwg.Add(1)
+		seed := c.Rng.Int63()
+		go func(i int, m syncapi.Method) {
+			defer mwg.Done()
+			sub, err := os.MkdirTemp(dir, "probe")
+			if err != nil {
+				panic(err)
+			}
+			mode := lockModeOf(worlds[0], sub, m, rand.New(rand.NewSource(seed)))
+			mmu.Lock()
+			modes[m.Name] = mode
+			mmu.Unlock()
+		}(i, m)
+	}
+	mwg.Wait()
+	for _, m := range methods {
+		c.W.Op("wrapper "+m.Name, "mode="+modes[m.Name])
+		c.Count("mode="+modes[m.Name], 1)
 	}
 	for _, sw := range worlds {
 		for _, m := range methods {
